@@ -728,6 +728,73 @@ Fixpoint auth_run (accepts : cred -> bool) (attempts : list cred) : list cred * 
               else let '(l, ok) := auth_run accepts r in (c :: l, ok)
   end.
 
+(* the authentication dialogue of ONE client connection, request by request, as
+   x/crypto/ssh's serverAuthenticate runs it on the ServerConfig that sshProxyService.Handle
+   builds (MaxAuthTries = PROXY_MAX_AUTH_TRIES, no NoClientAuth, a PublicKeyCallback that
+   records the offer and refuses, a PasswordCallback that records the attempt and logs in
+   to the backend with the presented credentials on a connection of its own):
+     userAuthLoop:
+       if authFailures >= MaxAuthTries && MaxAuthTries > 0 -> disconnect (reason 2)
+       read the next request
+         none      : refused; the first one is free (authFailures-- if it is 0)
+         publickey : PublicKeyCallback (key not offered before) -> refused
+         password  : PasswordCallback -> the backend's verdict
+       accepted -> the loop ends;  refused -> authFailures++, failure reply, loop
+   [max] is a parameter of the loop so that the theorem can say what it depends on. *)
+Inductive areq := ANone | APub | APw (pw : bytes).
+(* what the client is told for one request: failure, success, or nothing at all because
+   the proxy has ended the connection *)
+Inductive averdict := VFail | VOk | VClosed.
+
+Definition PROXY_MAX_AUTH_TRIES : Z := -1.      (* ssh-proxy.go: MaxAuthTries: -1 *)
+
+Record auth_obs := mkAuth {
+  au_saw : list cred;            (* credentials presented to the backend, oldest first *)
+  au_verdicts : list averdict;   (* one per client request, in order *)
+  au_pk : N;                     (* public-key offers recorded (PublicKeyCallback calls) *)
+  au_open : bool }.              (* afterwards the connection is open (authenticated, or waiting for the next request) *)
+
+Definition auth_cons (saw : list cred) (v : averdict) (pk : N) (o : auth_obs) : auth_obs :=
+  mkAuth (saw ++ au_saw o) (v :: au_verdicts o) (pk + au_pk o)%N (au_open o).
+
+Fixpoint auth_dialogue (max : Z) (oracle : cred -> bool) (user : bytes) (fails : Z) (reqs : list areq) : auth_obs :=
+  match reqs with
+  | [] => mkAuth [] [] 0%N (negb ((max <=? fails) && (0 <? max)))
+  | q :: r =>
+      if (max <=? fails) && (0 <? max) then
+        (* disconnected before the request is read: nothing of it or of what follows is seen *)
+        mkAuth [] (map (fun _ => VClosed) reqs) 0%N false
+      else
+        match q with
+        | ANone =>
+            let f := if fails =? 0 then fails - 1 else fails in
+            auth_cons [] VFail 0%N (auth_dialogue max oracle user (f + 1) r)
+        | APub => auth_cons [] VFail 1%N (auth_dialogue max oracle user (fails + 1) r)
+        | APw pw =>
+            if oracle (user, pw)
+            then mkAuth [(user, pw)] [VOk] 0%N true       (* authenticated: the dialogue is over *)
+            else auth_cons [(user, pw)] VFail 0%N (auth_dialogue max oracle user (fails + 1) r)
+        end
+  end.
+
+(* the client's side of the dialogue: it goes on until it is told success (then it stops
+   asking) or it has nothing left to try *)
+Fixpoint client_sends (oracle : cred -> bool) (user : bytes) (reqs : list areq) : list areq :=
+  match reqs with
+  | [] => []
+  | APw pw :: r => if oracle (user, pw) then [APw pw] else APw pw :: client_sends oracle user r
+  | q :: r => q :: client_sends oracle user r
+  end.
+
+(* what the backend is to see of a list of requests, and the verdict that is the backend's
+   (none and public-key requests are answered by the proxy itself: refused) *)
+Definition creds_of (user : bytes) (reqs : list areq) : list cred :=
+  flat_map (fun q => match q with APw pw => [(user, pw)] | _ => [] end) reqs.
+Definition backend_verdict (oracle : cred -> bool) (user : bytes) (q : areq) : averdict :=
+  match q with APw pw => if oracle (user, pw) then VOk else VFail | _ => VFail end.
+Definition pubs_of (reqs : list areq) : N :=
+  N.of_nat (length (filter (fun q => match q with APub => true | _ => false end) reqs)).
+
 (* one session channel.  Client-to-backend traffic consists of channel requests and data;
    the proxy relays them with two goroutines (requestFn / copyFn), each preserving the
    order of its own queue.  [sched] chooses which goroutine moves next. *)
